@@ -4,7 +4,9 @@
 (* position.  The characteristic table holds a DISTINCT row for every (id, step).                                 *)
 (* REQUIRED: the effective ratio / angle / vk / vkr of transformer t is the row <<id_t, pos_t>> of the table,      *)
 (* independent of every other transformer; without dep the transformer's own tap changer data apply.             *)
-EXTENDS Integers, FiniteSets, TLC
+(* Second family (Init3, TapTable3W.cfg): one three-winding transformer W plus a second 3W / a 2W transformer that  *)
+(* may share W's characteristic id at a different step; definitions, table rule and oracles in TapTableDef.tla.   *)
+EXTENDS Integers, FiniteSets, TLC, TapTableDef
 CONSTANTS Ids, Positions      \* a position p stands for tap_pos = p - 2 (cfg files cannot hold negative numbers)
 T == 1..3
 VARIABLES cfg, eff
@@ -15,4 +17,23 @@ Next == UNCHANGED <<cfg, eff>>
 \* model-level: a transformer's effective row is untouched by changes to the other transformers
 Independent == \A t \in T : \A c2 \in {c \in Cfgs : c[t] = cfg[t]} : Eff(c2, t) = eff[t]
 OwnRow == \A t \in T : cfg[t].dep => eff[t] = <<"row", cfg[t].id, cfg[t].pos>>
+-----------------------------------------------------------------------------
+\* three-winding family: cfg = [w, o, member] (TapTableDef), eff = [tab : one source per (id, pos), ref : what B is]
+Cfg3 == {c \in [w : [dep : BOOLEAN, id : Ids, pos : Positions, side : Sides, star : BOOLEAN, type : Types],
+                 o : [kind : OKinds, pos : Positions], member : {"lin", "off"}] :
+           /\ (c.member = "lin" => LinOK(c.w)) /\ (c.member = "off" => OffOK(c.w))
+           /\ (IF c.o.kind = "none" THEN c.o.pos = c.w.pos ELSE c.o.pos # c.w.pos)}
+Init3 == cfg \in Cfg3 /\ eff = Eff3(cfg, Ids, Positions)
+RowAt(id, pos) == CHOOSE r \in eff.tab : r.id = id /\ r.pos = pos
+\* model-level: exactly one row per (id, step); a dependent W reads a row that is W's own; that row does not depend
+\* on the other transformers; the other table-dependent transformer has its own row at its own step
+OneRowPerKey3 == Cardinality(eff.tab) = Cardinality(Ids) * Cardinality(Positions)
+                 /\ \A d \in Ids, p \in Positions : Cardinality({r \in eff.tab : r.id = d /\ r.pos = p}) = 1
+OwnRow3 == /\ cfg.w.dep => RowAt(cfg.w.id, cfg.w.pos).src = (IF cfg.member = "off" THEN "w_off" ELSE "w_own")
+           /\ ~cfg.w.dep => \A r \in eff.tab : r.src \notin {"w_own", "w_off"}
+           /\ cfg.o.kind # "none" => RowAt(cfg.w.id, cfg.o.pos).src = "o_own"
+           /\ \A r \in eff.tab : r.src # "junk" => r.id = cfg.w.id /\ r.pos \in {cfg.w.pos, cfg.o.pos}
+Independent3 == \A o2 \in [kind : OKinds, pos : Positions] : LET c2 == [cfg EXCEPT !.o = o2] IN
+                    c2 \in Cfg3 => Src3(c2, cfg.w.id, cfg.w.pos) = RowAt(cfg.w.id, cfg.w.pos).src
+OffOnlyAtTerminal3 == eff.ref = "entered" => cfg.w.dep /\ ~cfg.w.star
 =============================================================================
